@@ -36,6 +36,7 @@ type Profile struct {
 	InodeChurn bool // C08: create/remove cycles to force inode reuse
 	DeadProbe  bool // C08: present dead handles to every procedure/position
 	ZeroScan   bool
+	HotSet     int  // pick objects mostly from the n oldest of their kind (so that operations pile up on few objects)
 	DeleteAll  bool // C05: delete everything at the end; only the root may remain
 }
 
@@ -116,6 +117,9 @@ func (s *Sess) pickObj(kind int) *MObj {
 	}
 	if len(c) == 0 {
 		return nil
+	}
+	if s.p.HotSet > 0 && len(c) > s.p.HotSet && s.rng.Intn(3) != 0 {
+		c = c[:s.p.HotSet]
 	}
 	return c[s.rng.Intn(len(c))]
 }
@@ -629,14 +633,19 @@ func (s *Sess) fsck(class, when string) {
 	s.srv.WaitIdle()
 	s.res.Fscks++
 	fr := s.srv.Fsck(FsckOpts{CheckCaches: true, ZeroScan: s.p.ZeroScan})
+	cf, cl, cc := "fsck", "leak", "cache"
+	if class == "afterfail" {
+		// observed right after a failing RPC: the trace it left
+		cf, cl, cc = class, class, class
+	}
 	for _, m := range fr.Errs {
-		s.viol("fsck", "%s: %s", when, m)
+		s.viol(cf, "%s: %s", when, m)
 	}
 	for _, m := range fr.Leaks {
-		s.viol("leak", "%s: %s", when, m)
+		s.viol(cl, "%s: %s", when, m)
 	}
 	for _, m := range fr.CacheErrs {
-		s.viol("cache", "%s: %s", when, m)
+		s.viol(cc, "%s: %s", when, m)
 	}
 	s.res.States[fr.StateHash] = true
 	if fr.NIndirect > 0 || fr.MaxDepth > 0 {
@@ -739,7 +748,9 @@ func runSeq(p Profile, seed uint64, cas int) *SeqRes {
 	}
 	for i := 0; i < p.NOps && len(res.Viol) == 0; i++ {
 		var op *Op
-		if p.Recycle && rng.Intn(3) == 0 {
+		if p.NearFull && (p.AfterFail || p.TwinEvery > 0) && rng.Intn(5) < 2 {
+			op = s.genSteer()
+		} else if p.Recycle && rng.Intn(3) == 0 {
 			op = s.genRecycle()
 		} else if p.InodeChurn && rng.Intn(3) == 0 {
 			op = s.genChurn()
@@ -1064,4 +1075,73 @@ func (s *Sess) firstByteDiff(got, want []DumpEnt) string {
 		return fmt.Sprintf("\n%s: hashes differ but a second read agrees with the reference", w.Path)
 	}
 	return ""
+}
+
+// genSteer (C09) keeps the number of free blocks between 0 and 3 and aims
+// requests at the paths that fail after having started to modify state.
+func (s *Sess) genSteer() *Op {
+	r := s.rng
+	s.srv.WaitIdle()
+	free := s.srv.N.VerifFsState().Balloc.NumFree()
+	filler := s.m.lookupIn(s.m.Objs[s.m.Root], "filler")
+	small := func() *MObj { // a regular file without an indirect block
+		var c []*MObj
+		for _, o := range s.m.LiveObjs() {
+			if o.Kind == KReg && o.FH != nil && o.Size <= 8*BlockSize && o != filler {
+				c = append(c, o)
+			}
+		}
+		if len(c) == 0 {
+			return nil
+		}
+		return c[r.Intn(len(c))]
+	}
+	switch {
+	case free > 3 && filler != nil && filler.FH != nil:
+		s.nextUid++
+		n := uint32(minU64(free-uint64(r.Intn(3)), 60)) * BlockSize
+		return &Op{K: OpWrite, H: filler.FH, Off: ((filler.Size + BlockSize - 1) / BlockSize) * BlockSize, Count: n, DataLen: n, Uid: s.nextUid, Stable: 2}
+	case free == 0:
+		// make a little room again
+		if filler != nil && filler.FH != nil && filler.Size > 4*BlockSize && r.Intn(2) == 0 {
+			return &Op{K: OpSetattr, H: filler.FH, SetSize: true, Size: filler.Size - uint64(1+r.Intn(3))*BlockSize}
+		}
+		d := s.m.Objs[s.m.Root]
+		if len(d.Ents) > 1 {
+			n := s.existingName(d.FH)
+			if n != "filler" {
+				return &Op{K: OpRemove, H: d.FH, Name: n}
+			}
+		}
+		return s.genOp()
+	}
+	// 1..3 free blocks: requests that need one block more than there is
+	switch r.Intn(7) {
+	case 0, 1: // first write into the indirect range of a small file: indirect block + data block
+		if o := small(); o != nil {
+			s.nextUid++
+			n := r.PickU32([]uint32{1, BlockSize, 3 * BlockSize})
+			return &Op{K: OpWrite, H: o.FH, Off: uint64(8+r.Intn(20)) * BlockSize, Count: n, DataLen: n, Uid: s.nextUid, Stable: r.Intn(3)}
+		}
+	case 2: // double-indirect: three blocks
+		if o := small(); o != nil {
+			s.nextUid++
+			return &Op{K: OpWrite, H: o.FH, Off: uint64(8+512+r.Intn(600)) * BlockSize, Count: 10, DataLen: 10, Uid: s.nextUid, Stable: 2}
+		}
+	case 3:
+		return &Op{K: OpMkdir, H: s.dirHandle(), Name: s.name()}
+	case 4:
+		return &Op{K: OpSymlink, H: s.dirHandle(), Name: s.name(), Target: longName(1+r.Intn(3*BlockSize), 'T')}
+	case 5: // several blocks at once: runs out part-way
+		if o := small(); o != nil {
+			s.nextUid++
+			n := uint32(2+r.Intn(6)) * BlockSize
+			return &Op{K: OpWrite, H: o.FH, Off: (o.Size / BlockSize) * BlockSize, Count: n, DataLen: n, Uid: s.nextUid, Stable: r.Intn(3)}
+		}
+	case 6: // grow by SETATTR, then the hole must be filled by a later read/write
+		if o := small(); o != nil {
+			return &Op{K: OpSetattr, H: o.FH, SetSize: true, Size: o.Size + uint64(1+r.Intn(12))*BlockSize}
+		}
+	}
+	return s.genOp()
 }
